@@ -228,6 +228,26 @@ inline std::string shlog_tail(size_t maxbytes) {
     return std::string(l->data + from, n - from);
 }
 
+// ---- watchdog for in-process evaluation (engine A): a container operation that never returns must not stall the shard silently ----
+struct WatchState { const void *cur = nullptr; std::string (*render)(const void *) = nullptr; std::string out_base, prop; int seconds = 30; unsigned long n = 0; bool installed = false; bool in_exhaustive = false; };
+inline WatchState &watch() { static WatchState w; return w; }
+inline bool &hang_is_failure() { static bool b = false; return b; } // engines whose cases take microseconds: a case that outlives its timeout is a verdict (<prop>.HANG)
+inline void watch_handler(int) {
+    WatchState &w = watch();
+    std::string text = (w.cur && w.render) ? w.render(w.cur) : std::string("# case not available\n");
+    write_file(w.out_base + ".hang", "# rule " + w.prop + ".HANG\n# the operations of this case did not return within " + std::to_string(w.seconds) + " s (in-process evaluation)\n" + text);
+    _exit(42);
+}
+// a sanitizer abort during an in-process evaluation: save the case that was being evaluated (shrunk later through the replay runner)
+inline void death_callback() {
+    WatchState &w = watch();
+    if (!w.cur || !w.render) return;
+    const void *c = w.cur; w.cur = nullptr;
+    write_file(w.out_base + ".crash", "# rule " + w.prop + ".CRASH\n# sanitizer abort during the in-process evaluation of this case (" + std::string(w.in_exhaustive ? "tier exhaustive" : "tier random") + ")\n" + w.render(c));
+}
+// called before every in-process evaluation; the alarm is re-armed every 512 cases (so it fires after seconds..2*seconds without progress)
+inline void watch_tick(const void *c) { WatchState &w = watch(); w.cur = c; if (w.installed && (w.n++ & 511) == 0) alarm((unsigned)w.seconds); }
+
 inline SharedVerdict *&shared_verdict() { static SharedVerdict *sv = nullptr; return sv; }
 // child side: publish the verdict and leave (also usable from a stuck-scheduler hook that must not return)
 inline void child_finish(const Verdict &v) {
@@ -277,6 +297,7 @@ inline Verdict run_forked(const std::string &prop, const std::function<Verdict()
         return v;
     }
     if (WIFSIGNALED(status) && WTERMSIG(status) == SIGALRM) {
+        if (hang_is_failure()) { v.ok = false; v.rule = prop + ".HANG"; v.message = "the operations of this case did not return within " + std::to_string(timeout_s) + " s"; v.classes.push_back("hang"); return v; }
         v.inconclusive = true; v.classes.push_back("timeout");
         return v;
     }
